@@ -89,6 +89,40 @@ namespace CDNS {
         explicit BlockTable() {}
 
         /**
+         * @brief Copy constructor.
+         *
+         * The index map holds references to the stored items, so it has to be built
+         * again for the copied items instead of being copied from the source.
+         */
+        BlockTable(const BlockTable& copy) : items_(copy.items_)
+        {
+            rebuild_indexes();
+        }
+
+        /**
+         * @brief Move constructor. Moved items stay where they are in memory.
+         */
+        BlockTable(BlockTable&& copy) = default;
+
+        /**
+         * @brief Copy assignment operator.
+         */
+        BlockTable& operator=(const BlockTable& rhs)
+        {
+            if (this != &rhs) {
+                indexes_.clear();
+                items_ = rhs.items_;
+                rebuild_indexes();
+            }
+            return *this;
+        }
+
+        /**
+         * @brief Move assignment operator. Moved items stay where they are in memory.
+         */
+        BlockTable& operator=(BlockTable&& rhs) = default;
+
+        /**
          * @brief Find if a key value is in the list
          * 
          * @param key the key value to search for.
@@ -220,6 +254,17 @@ namespace CDNS {
             res -= 1;
             indexes_[KeyRef<K>(items_.back().key())] = res;
             return res;
+        }
+
+        /**
+         * @brief Build the index map from the stored items.
+         */
+        void rebuild_indexes()
+        {
+            indexes_.clear();
+            CDNS::index_t pos = 0;
+            for ( const T& item : items_ )
+                indexes_[KeyRef<K>(item.key())] = pos++;
         }
 
         std::deque<T> items_;
